@@ -1454,7 +1454,7 @@ func vfE1ScanLoopDirty(t *testing.T, r *vfRand, variant string) bool {
 
 // ---------------------------------------------------------------------------------------------
 // TestVerifScanWindowReplay: hook-steered replay, on the real Channel, of the schedule of
-// Props.C04.never_early_micro_false (known finding C04 `scan-window-requeue`): between the scan's
+// Props.C04.never_early_micro_false (finding C04 `scan-window-requeue`, fixed by F16 = /repo 512db6c): between the scan's
 // heap pop and its map pop (hook point chan.scan.afterPQPop) the holder REQs the message with delay
 // 0 and the same *Message is delivered again. Every step is one complete critical section of the
 // real code, so the schedule is one the Go scheduler can produce.
@@ -1531,7 +1531,7 @@ func TestVerifScanWindowReplay(t *testing.T) {
 		reproduced, fired, steps, dirty, stillInFlight, inHeap, released, time.Duration(newDeadline-oldDeadline))
 }
 
-// TestVerifStaleHeapReplay — audit A3 / fix F48 (known finding C04 `stale-heap-entry-hides-due`): a late
+// TestVerifStaleHeapReplay — audit A3 / fix F48 = /repo 88fd245 (finding C04 `stale-heap-entry-hides-due`, fixed): a late
 // `REQ M 0` of the SAME connection, processed between the in-flight-map insert and the deadline-heap insert of
 // M's redelivery (hook chan.inflight.afterMapPush), leaves a heap entry for an object that is queued again; its
 // next delivery rewrites msg.pri in place inside the heap; processInFlightQueue then does not see X although X is
